@@ -36,6 +36,14 @@ CHECKS = {
                 technique="explicit-state search on the real emulator: state = stacks of open regions of a thread (depth <= 2), every documented event of the model probed in every state against a stack reference; golden value/label table; binding pass through the real ovniemu",
                 text="For each of the eight models every nesting of depth <= 2 of its documented enter events is reached on the real emulator and every documented argument-less event is probed there: the matching leave must be accepted, every other leave refused, every non-re-entering enter accepted, and thread and CPU rows must show the documented value of the innermost open region. Also: required thread state (6 states x in/out of CPU), lint on open regions for all enter events, a depth-512 path with the 513th push refused, and .pcf labels.",
                 note="Trusted: doc/user/emulation/events.md for the event list and pairing, golden/enter_values.json (frozen after manual review), lib/pv.py. Immediate re-entry of the innermost region may go either way. Depth bound 2 (+ one 512 path)."),
+    "C09": dict(level="fault_enumeration", engine="E5 strace kill injection + crash_driver + real ovniemu", ref="DESIGN.md 5 (C09)",
+                technique="exhaustive crash-point enumeration: the traced program (real libovni, small staging buffer, owned clock and readdir order) is killed by the syscall tracer before every file-system-changing syscall of the runtime phase; the directory left behind is compared with the flush log and given to the real ovniemu",
+                text="Seven scenarios (minimal; explicit+automatic flushes > 8 KiB; first life ending exactly on a 4096-byte copy-chunk boundary followed by a second life; metadata flush in the middle; two threads in three serialisations) x {direct, OVNI_TMPDIR with stream.json or stream.obs enumerated first}: SIGKILL before every mkdir/openat(creating)/write/unlink/rmdir of the runtime phase (kills before calls without effect leave the same state). P1: if ovniemu accepts the directory, every stream it loaded holds all bytes its thread had passed to completed write()s; P2: a stream.json marked finished in the final directory implies the complete stream.obs next to it.",
+                note="Trusted: strace (kill at syscall entry, call not executed; occurrences counted per thread, so a few points of a trailing thread are not targetable - counted in the evidence), process-crash model (page cache survives). "),
+    "C10": dict(level="fault_enumeration", engine="E5 strace error injection + crash_driver + real ovniemu", ref="DESIGN.md 5 (C10)",
+                technique="exhaustive single-fault enumeration: every file-system syscall of the runtime phase fails once with each errno of its class; outcome classified as abort-with-diagnostic or normal return and the final and temporary directories examined",
+                text="Scenarios and modes as C09; every runtime-phase mkdir, openat, write, read, close, newfstatat, getdents64, unlink, rmdir fails once with EACCES/ENOSPC/EMFILE/EIO (per class). The process must either be terminated by abort() with a diagnostic on stderr, or return normally leaving a complete final trace (streams byte-identical to the fault-free run, metadata finished, accepted by ovniemu); in both cases no temporary stream file may have been removed while its copy in the final directory is incomplete.",
+                note="Trusted: strace error injection (call not executed, returns -errno). Single faults. Short writes are C01's subject."),
     "C12": dict(level="fault_enumeration", engine="E6 real ovniemu + lib/mutate.py", ref="DESIGN.md 5 (C12)",
                 technique="exhaustive single-corruption enumeration of four multi-model base traces (every position x every operator), each run through the real ovniemu -l; validity classified independently from the trace specification",
                 text="Four valid base traces (nOS-V with jumbo type events, Nanos6, MPI+TAMPI+marks, two looms with ranks + OpenMP/NODES/kernel; each ending like libovni does, with flush markers after the end event) x every single corruption: truncation at every byte offset, swap of every adjacent event pair with different clocks, every header byte x {00,ff,+1}, every event's model byte to a not-required and to an unregistered model, unknown event value, every wrong payload size of size-checked events, jumbo event replaced by a non-jumbo one, removal and 6-8 replacement values of every metadata key, truncated JSON. Whenever the corrupted trace is invalid by the specification, ovniemu must exit non-zero and must not print 'emulation finished ok'.",
@@ -112,6 +120,8 @@ def main():
              "kind_free_text": "libovni compiled into the driver from the working tree (OVNI_MAX_EV_BUF overridable), interposed clock/write/abort; Python enumerates programs over buffer fill levels"},
             {"name": "E4 task_server", "path": "harness/task_server.c", "serves_properties": ["C07"],
              "kind_free_text": "task.c/body.c driven in-process, one history per line, full private state dumped"},
+            {"name": "E5 crash_driver + strace", "path": "harness/crash_driver.c", "serves_properties": ["C09", "C10"],
+             "kind_free_text": "traced program with libovni compiled in; strace injects SIGKILL or an errno at the N-th occurrence of a syscall"},
             {"name": "TLC", "path": "tla/", "serves_properties": ["C04", "C05", "C06"],
              "kind_free_text": "TLA+ reference models; complete labelled state graph dumped and replayed against the implementation"},
         ],
